@@ -804,6 +804,11 @@ impl<'ast, 'b> Visit<'ast> for BlockFinder<'ast, 'b> {
         if self.found.is_some() {
             return;
         }
+        // innermost block first (matters for `~contains` anchors)
+        visit::visit_block(self, b);
+        if self.found.is_some() {
+            return;
+        }
         for s in &b.stmts {
             let r = s.span().byte_range();
             if anchor_match(stmt_text_no_attrs(self.src, s, r.start, r.end), self.from) {
@@ -811,7 +816,6 @@ impl<'ast, 'b> Visit<'ast> for BlockFinder<'ast, 'b> {
                 return;
             }
         }
-        visit::visit_block(self, b);
     }
 }
 
